@@ -69,6 +69,12 @@ def run(facts):
                 others = [a for a in alts if a not in oks]
                 probs = []
                 if it["name"] != "visit_seq":
+                    sib = sibling_delegation(facts, im, e)
+                    if sib:
+                        # tail call of another entry point of the same visitor with the whole argument handed on through content-preserving
+                        # conversions: the sibling is judged by this rule itself (chains are followed, cycles rejected)
+                        res.ok(key, b.loc(), "delegates to %s" % sib, nontrivial=True)
+                        continue
                     if len(oks) != 1 or others:
                         probs.append("does not return a single Ok(..)")
                     else:
@@ -88,6 +94,32 @@ def run(facts):
                     res.ok(key, b.loc(), how, nontrivial=True)
     res.floor("serde_items", n, 14)
     return res
+
+
+def sibling_delegation(facts, im, e, seen=()):
+    """`e` = sibling_visit_x(self, conv(whole argument)) where the sibling (followed transitively, no cycles) returns its own Ok(..):
+    -> description, else None"""
+    e = canon(e)
+    sibs = {}
+    for it in im["items"]:
+        if it["name"].startswith("visit_") and it["name"] != "visit_seq":
+            sb = facts.by_did.get(it["did"])
+            if sb is not None:
+                sibs[sb.id] = sb
+    if not (isinstance(e, tuple) and e and e[0] == "call" and e[1] in sibs and len(e[2]) == 2 and canon(e[2][0]) == ("param", 1)):
+        return None
+    root, steps = conv_root(e[2][1])
+    if root != ("param", 2) or e[1] in seen:
+        return None
+    sb = sibs[e[1]]
+    se = return_expr(sb, facts, inline=False)
+    alts = se[1] if se[0] == "phi" else (se,)
+    name = e[1].rsplit("::", 1)[-1]
+    how = "%s(%sarg%s)" % (name, "".join(s + "(" for s in steps), ")" * len(steps))
+    if len(alts) == 1 and isinstance(alts[0], tuple) and alts[0][0] == "agg" and "Ok" in str(alts[0][1]):
+        return how
+    deeper = sibling_delegation(facts, im, se, seen + (e[1],))
+    return (how + " -> " + deeper) if deeper else None
 
 
 def check_seq(facts, b, oks, others, depth=0):
